@@ -22,10 +22,11 @@ Frag(f) ==
   ELSE IF f.k = "C" THEN [k |-> "C", c |-> Pt(f.c), r |-> f.r, f |-> B(f.f), cells |-> Cells2(f.cells)]
   ELSE IF f.k = "M" THEN [k |-> "M", s |-> Pt(f.s), e |-> Pt(f.e), b |-> B(f.b), em |-> f.em, cells |-> Cells2(f.cells)]
   ELSE IF f.k = "P" THEN [k |-> "P", pts |-> [i \in 1..Len(f.pts) |-> Pt(f.pts[i])], cells |-> Cells2(f.cells)]
-  ELSE IF f.k = "R" THEN [k |-> "R", s |-> Pt(f.s), e |-> Pt(f.e), r |-> f.r, b |-> B(f.b)]
+  ELSE IF f.k = "R" THEN [k |-> "R", s |-> Pt(f.s), e |-> Pt(f.e), r |-> f.r, b |-> B(f.b), f |-> B(f.f), cells |-> Cells2(f.cells)]
   ELSE [k |-> "T", cell |-> Pt(f.cell), s |-> f.t, cells |-> Cells2(f.cells)]
 NoCells(f) == IF f.k = "A" THEN [k |-> "A", s |-> f.s, e |-> f.e, r |-> f.r, sw |-> f.sw, mj |-> f.mj]
-              ELSE IF f.k = "C" THEN [k |-> "C", c |-> f.c, r |-> f.r, f |-> f.f] ELSE f
+              ELSE IF f.k = "C" THEN [k |-> "C", c |-> f.c, r |-> f.r, f |-> f.f]
+              ELSE IF f.k = "R" THEN [k |-> "R", s |-> f.s, e |-> f.e, r |-> f.r, b |-> f.b, f |-> f.f] ELSE f
 Frags(fs) == [i \in 1..Len(fs) |-> Frag(fs[i])]
 Groups(gs) == [i \in 1..Len(gs) |-> Frags(gs[i])]
 Span2(sp) == [i \in 1..Len(sp) |-> Pt(sp[i])]
@@ -65,7 +66,7 @@ Step(ev) ==
                    \cup (IF Len(logged) <= Len(merged) THEN {} ELSE {<<l, "inv:pass-grew">>})
          /\ contacts' = logged /\ UNCHANGED <<cs, merged, rejects>> /\ ninv' = ninv + 1
     [] ev.ev = "rects" ->
-         LET acc == Frags(ev.accepted) rej == Groups(ev.rejects)
+         LET acc == [i \in 1..Len(ev.accepted) |-> NoCells(Frag(ev.accepted[i]))] rej == Groups(ev.rejects)
              mrects == SelectSeq(contacts, Endorsable) mrej == SelectSeq(contacts, LAMBDA GG : ~Endorsable(GG)) IN
          /\ bad' = Mark(acc = [i \in 1..Len(mrects) |-> RectOf(mrects[i])] /\ rej = mrej, "rects")
          /\ rejects' = rej /\ UNCHANGED <<cs, merged, contacts, ninv>>
